@@ -414,10 +414,12 @@ func realTrace(args []string) int {
 		if wh == "centre" && len(lp) > 0 && len(lp[0]) >= 2 {
 			// an edge (two consecutive vertices) exactly on a centre line of the extent
 			j := rng.Intn(len(lp[0]))
-			if rng.Intn(2) == 0 {
+			onX := math.Abs(math.Round((minX+span/2)/step)-ax) <= float64(kmax) // is the window on the vertical centre line?
+			onY := math.Abs(math.Round((minY+span/2)/step)-ay) <= float64(kmax)
+			if onX && (!onY || rng.Intn(2) == 0) {
 				c := int(math.Round((minX+span/2)/step)-ax) + kmax
 				lp[0][j][0], lp[0][(j+1)%len(lp[0])][0] = c, c
-			} else {
+			} else if onY {
 				c := int(math.Round((minY+span/2)/step)-ay) + kmax
 				lp[0][j][1], lp[0][(j+1)%len(lp[0])][1] = c, c
 			}
